@@ -5,6 +5,7 @@
 set -u
 PAT=${1:-.}
 export GOFLAGS=-mod=mod GOPROXY=off GOSUMDB=off GOTOOLCHAIN=local
+export VERIF_SCRATCH_EVIDENCE=/tmp/seed-evidence   # runs against a changed library never touch /verif/evidence
 cd /verif
 lost=0
 for d in seeded/*/; do
